@@ -39,6 +39,22 @@ Theorem C03_first_update_not_late :
   forall cs endt m, min_start cs = Some m -> m < endt -> any_running (init_state cs) O cs endt = true.
 Proof. exact init_running. Qed.
 
+(** Life cycle.  [lifecycle nconn nupd] is the call sequence the model of the composition sends to a component
+    (initialize, [nconn] connect calls, validate, [nupd] updates, finalize); the correspondence check compares it, for
+    every component of every case, with the call history of the real component ([c03_check], with [nupd] the update
+    count of the model run and adapters finalized exactly once).  Its shape: it starts with initialize, ends with
+    finalize, the phases never go backwards (so every connect call precedes validate, every update lies between
+    validate and finalize), and initialize / validate / finalize occur exactly once. *)
+Theorem C03_lifecycle :
+  forall nconn nupd,
+    hd_error (lifecycle nconn nupd) = Some KI /\
+    last (lifecycle nconn nupd) KI = KF /\
+    nondecreasing (map phase (lifecycle nconn nupd)) /\
+    count_call KI (lifecycle nconn nupd) = 1%nat /\ count_call KC (lifecycle nconn nupd) = nconn /\
+    count_call KV (lifecycle nconn nupd) = 1%nat /\ count_call KU (lifecycle nconn nupd) = nupd /\
+    count_call KF (lifecycle nconn nupd) = 1%nat.
+Proof. exact lifecycle_shape. Qed.
+
 (** The run of a valid composition never ends with a data error (so it ends normally, with a circular
     coupling error, or — in the model — by exhausting the fuel it was given). *)
 Theorem C03_outcome :
@@ -110,5 +126,6 @@ Print Assumptions C03_monotone.
 Print Assumptions C03_no_late_update.
 Print Assumptions C03_first_update_not_late.
 Print Assumptions C03_outcome.
+Print Assumptions C03_lifecycle.
 Print Assumptions C03_terminates.
 Print Assumptions C03_terminates_normally_or_circular.
